@@ -6,6 +6,10 @@ aggregates (`updateFileDiagnostics`) — and the file may be deleted or renamed 
 `guarded = true` is the tree after the repairs "do not re-create the module / the aggregates of a file deleted while it
 was being parsed / linted" (the stores re-check that the file's contents are still cached); `guarded = false` is the
 code as it was.
+
+In `step` the re-check and the store are ONE step. That is what /repo does since 8be5692 (`Cache.IfPresent` runs the
+check and the stores under the lock `Cache.Delete` takes; tie: facts.lspstores). Before that commit the check and the
+store were two steps of the worker (`step2`, event `check`), and a delete could land between them.
 -/
 namespace RegalModel.LspCache
 
@@ -44,6 +48,33 @@ def step (guarded : Bool) (s : St) : Ev → St
     | some u => if !guarded || s.files.contains u then { s with aggs := u :: s.aggs, inflight := none }
                 else { s with inflight := none }
     | none => s
+
+/-- the worker of /repo before 8be5692: the re-check (`check`) and the stores are separate steps. `checked` is the
+worker's local "the file was still there when I looked". -/
+structure St2 where
+  s : St
+  checked : Bool
+  deriving Repr
+
+inductive Ev2 where
+  | ev (e : Ev)
+  | check                     -- `if _, ok := cache.GetFileContents(uri); !ok { return }`
+  deriving Repr
+
+def step2 (t : St2) : Ev2 → St2
+  | .check => { t with checked := match t.s.inflight with | some u => t.s.files.contains u | none => false }
+  | .ev .storeModule =>
+    match t.s.inflight with
+    | some u => if t.checked then { t with s := { t.s with modules := u :: t.s.modules } } else t
+    | none => t
+  | .ev .storeAggs =>
+    match t.s.inflight with
+    | some u => if t.checked then { s := { t.s with aggs := u :: t.s.aggs, inflight := none }, checked := false }
+                else { s := { t.s with inflight := none }, checked := false }
+    | none => t
+  | .ev e => { t with s := step true t.s e }
+
+def run2 (t : St2) (evs : List Ev2) : St2 := evs.foldl step2 t
 
 def init (files : List Uri) : St := { files := files, modules := files, aggs := files, jobs := [], inflight := none }
 
